@@ -766,13 +766,24 @@ def rule_df(ctx):
     else:
         c = frames[0]
         cols = next((k.value for k in c.keywords if k.arg == "columns"), None)
+        ldefs = {}
+        for a_ in walk_shallow(fi.node):
+            if isinstance(a_, ast.Assign) and len(a_.targets) == 1 and isinstance(a_.targets[0], ast.Name):
+                ldefs.setdefault(a_.targets[0].id, []).append(a_.value)
+        colvar = None
+        if isinstance(cols, ast.Name) and len(ldefs.get(cols.id, ())) == 1:
+            colvar, cols = cols.id, ldefs[cols.id][0]
         if not (c.args and ast.unparse(c.args[0]) == "self.data"):
             problems.append("the frame is not built from self.data")
         if not (isinstance(cols, ast.ListComp) and isinstance(cols.elt, ast.Attribute) and cols.elt.attr == "mnemonic"
                 and ast.unparse(cols.generators[0].iter) == "self.curves" and not cols.generators[0].ifs):
             problems.append("the columns are not the curves' session mnemonics in order")
     idx = [c for c in walk_shallow(fi.node) if isinstance(c, ast.Call) and isinstance(c.func, ast.Attribute) and c.func.attr == "set_index"]
-    if not idx or not (idx[0].args and ast.unparse(idx[0].args[0]) == "self.curves[0].mnemonic"):
+    first_ok = bool(idx) and bool(idx[0].args) and (
+        ast.unparse(idx[0].args[0]) == "self.curves[0].mnemonic" or (
+            len(frames) == 1 and colvar is not None and isinstance(idx[0].args[0], ast.Subscript) and isinstance(idx[0].args[0].value, ast.Name)
+            and idx[0].args[0].value.id == colvar and isinstance(idx[0].args[0].slice, ast.Constant) and idx[0].args[0].slice.value == 0))
+    if not first_ok:
         problems.append("the first curve is not made the index")
     # object columns become float64 all-or-nothing: astype inside try/except ValueError, no element-wise coercion
     for c in walk_shallow(fi.node):
@@ -796,6 +807,24 @@ def rule_df(ctx):
                                                                                               "partition", "rpartition", "upper", "lower", "removesuffix", "removeprefix")):
                 problems.append("set_data_from_df rewrites the column names with `%s`: set_data_from_df(df()) no longer restores the curves' "
                                 "names (RHO:2/RHO:3 after a deletion come back as RHO:1/RHO:2, a curve really called RES:1 becomes RES)" % unparse(sub)[:60])
+    # the frame's own names are used whenever the caller gave none: missing, None (what set_data() forwards) or empty
+    from sa.consts import fold as _fold, NotConst as _NC
+    kwname = fs.node.args.kwarg.arg if fs.node.args.kwarg is not None else None
+    for sub in walk_shallow(fs.node):
+        if kwname and isinstance(sub, ast.If) and any(
+                isinstance(a_, ast.Assign) and any(isinstance(t_, ast.Subscript) and isinstance(t_.value, ast.Name) and t_.value.id == kwname
+                                                   and isinstance(t_.slice, ast.Constant) and t_.slice.value == "names" for t_ in a_.targets)
+                for a_ in sub.body):
+            for world, label in (({}, "no names argument"), ({"names": None}, "names=None (what set_data forwards)"), ({"names": []}, "names=[]")):
+                try:
+                    v = bool(_fold(sub.test, lambda n_, world=world: world if n_ == kwname else (_ for _ in ()).throw(_NC(n_))))
+                except _NC:
+                    continue
+                except Exception:  # noqa - not foldable
+                    continue
+                if not v:
+                    problems.append("with %s the names of the frame (index name + columns) are not used: `%s` is false there, the curves keep "
+                                    "their old or placeholder names and set_data_from_df(df()) no longer restores them" % (label, unparse(sub.test)))
     ctx.check(not problems, "EX.DF", fi.qual, fi, fi.node, "df(): self.data with the session mnemonics as columns, first curve as index",
               "; ".join(problems))
     ctx.floor("EX.DF", 1)
